@@ -17,6 +17,8 @@ from __future__ import absolute_import
 from __future__ import division
 from __future__ import print_function
 
+import numbers
+
 from . import internal_utils
 import tensorflow as tf
 
@@ -153,6 +155,11 @@ def verify_hyperparameters(num_buckets=None,
       raise ValueError(
           "Monotonicities should be a list of pairs (list/tuples).")
     for (i, j) in monotonicities:
+      if not (isinstance(i, numbers.Integral) and
+              isinstance(j, numbers.Integral)):
+        raise ValueError(
+            "Monotonicities should be pairs of integer bucket indices. "
+            "They are: {}".format(monotonicities))
       if (i < 0 or j < 0 or (num_buckets is not None and
                              (i >= num_buckets or j >= num_buckets))):
         raise ValueError(
